@@ -12,6 +12,14 @@
 (*   crash   one save in a child process with one fault (SIGKILL before a  *)
 (*           system call, ENOSPC/EIO from it, a write cut short by the     *)
 (*           file-size limit), then a fresh cache.NewCache on what is left  *)
+(*   rt2     second / third generation: a cache loaded from a saved state   *)
+(*           directory performs ONE saving operation before anything was    *)
+(*           read from it, the directory is re-opened; `diff` as in rt      *)
+(*   crash2  a save AFTER an interrupted save: restart on a directory that  *)
+(*           holds a temporary file (left by a fault run, or synthetic),    *)
+(*           one shrinking or growing mutation that saves once, reload      *)
+(*   leftover_obs  something that is not a plain file at the temporary path *)
+(*           (observed only, never judged)                                  *)
 (*   touch   the system calls that name the final path during a save       *)
 (*   unsafe  cache.NewCache on a cache file / directory of some kind, mode *)
 (*                                                                         *)
@@ -51,6 +59,32 @@ RtViolations ==
         \cup (IF E.had_file /\ ~E.saveerr /\ ~E.ino_changed
               THEN {V("Act_OnlyRename", "cache-file-inode-unchanged-by-save", E.op)} ELSE {})
 
+\* rt2: Act_ReloadEqualsLastSave for a save made by a process that started from a cache file (signature gen<n>:<field>)
+Rt2Violations ==
+    LET diff == SetOf(E.diff)
+        ex   == Get(E, "examples", <<>>)
+        pre  == "gen" \o ToString(E.gen) \o ":"
+    IN  (IF E.loaded THEN {} ELSE {V("Act_ReloadEqualsLastSave", pre \o "reload-failed", Get(E, "loaderr", ""))})
+        \cup (IF E.loaded /\ ~ReloadEqual(E.loaded, diff)
+              THEN {V("Act_ReloadEqualsLastSave", pre \o f, IF f \in DOMAIN ex THEN ex[f] ELSE "") : f \in diff} ELSE {})
+        \cup {V("Act_ReloadEqualsLastSave", pre \o "reloaded-cache-panics-in-" \o p.fn, p.msg) : p \in SetOf(Get(E, "api_panics", <<>>))}
+
+\* crash2: a successful save over whatever sat at the temporary path leaves exactly its snapshot (SaveOverLeftover);
+\* the conjuncts are reported one by one
+Crash2Violations ==
+    LET diff == SetOf(E.diff)
+        ex   == Get(E, "examples", <<>>)
+        pre  == "after-leftover:" \o E.what \o ":"
+        w    == E.mut \o " after " \o E.variant
+    IN  IF E.saveerr \/ SaveOverLeftover(E.loaded, diff, E.new_bytes, IF E.snap_bytes >= 0 THEN E.snap_bytes ELSE E.new_bytes, E.tmp_left) /\ E.bytes_equal
+        THEN {}
+        ELSE (IF E.loaded THEN {} ELSE {V("Inv_FileIsCompleteSnapshot", pre \o "load-failed", Get(E, "loaderr", ""))})
+             \cup (IF E.loaded /\ ~ReloadEqual(E.loaded, diff)
+                   THEN {V("Act_ReloadEqualsLastSave", pre \o f, IF f \in DOMAIN ex THEN ex[f] ELSE "") : f \in diff} ELSE {})
+             \cup (IF E.snap_bytes >= 0 /\ (~WholeFile(E.new_bytes, E.new_bytes, E.snap_bytes) \/ ~E.bytes_equal)
+                   THEN {V("Inv_FileIsCompleteSnapshot", pre \o "file-is-not-the-snapshot-bytes", w)} ELSE {})
+             \cup (IF E.tmp_left THEN {V("Act_OnlyRename", pre \o "temp-path-still-there-after-successful-save", w)} ELSE {})
+
 \* crash: Inv_FileIsCompleteSnapshot at the instant of the fault
 CrashSig(e) == e.kind \o (IF e.sys # "" THEN "@" \o e.sys ELSE "") \o ":" \o (IF e.loaded THEN "neither-old-nor-new" ELSE "load-failed")
 CrashViolations ==
@@ -80,6 +114,9 @@ Step(vs, pl, cv) ==
     /\ l' = l + 1 /\ UNCHANGED done
 
 TrRt     == E.ev = "rt" /\ Step(RtViolations, {}, {})
+TrRt2    == E.ev = "rt2" /\ Step(Rt2Violations, {}, {})
+TrCrash2 == E.ev = "crash2" /\ Step(Crash2Violations, {}, {})
+TrObs    == E.ev = "leftover_obs" /\ Step({}, {}, {})
 TrPlan   == E.ev = "plan" /\ Step({}, {<<E.snap, E.variant, p>> : p \in SetOf(E.points)}, {})
 TrCrash  == E.ev = "crash" /\ Step(IF E.fired /\ E.matched THEN CrashViolations ELSE {}, {},
                                    IF E.fired /\ E.matched THEN {<<E.snap, E.variant, E.point>>} ELSE {})
@@ -87,7 +124,7 @@ TrTouch  == E.ev = "touch" /\ Step(TouchViolations, {}, {})
 TrUnsafe == E.ev = "unsafe" /\ Step(UnsafeViolations, {}, {})
 \* a fresh NewCache (or the save) did not return: the file was not "loaded without error"
 TrHang   == E.ev = "hang" /\ Step(IF E.op = "roundtrip" THEN {V("Inv_FileIsCompleteSnapshot", "save-or-load-did-not-return", E.op)} ELSE {}, {}, {})
-TrOther  == E.ev \notin {"rt", "plan", "crash", "touch", "unsafe", "hang"} /\ Step({V("Trace", "unknown-event", E.ev)}, {}, {})
+TrOther  == E.ev \notin {"rt", "rt2", "crash2", "leftover_obs", "plan", "crash", "touch", "unsafe", "hang"} /\ Step({V("Trace", "unknown-event", E.ev)}, {}, {})
 
 Finish ==
     /\ l = N + 1 /\ ~done
@@ -99,7 +136,7 @@ Finish ==
     /\ done' = TRUE /\ UNCHANGED <<l, viols, planned, covered>>
 
 TraceInit == l = 1 /\ viols = <<>> /\ planned = {} /\ covered = {} /\ done = FALSE /\ TLCSet(3, -1)
-TraceNext == (l <= N /\ (TrRt \/ TrPlan \/ TrCrash \/ TrTouch \/ TrUnsafe \/ TrHang \/ TrOther)) \/ Finish
+TraceNext == (l <= N /\ (TrRt \/ TrRt2 \/ TrCrash2 \/ TrObs \/ TrPlan \/ TrCrash \/ TrTouch \/ TrUnsafe \/ TrHang \/ TrOther)) \/ Finish
 TraceSpec == TraceInit /\ [][TraceNext]_tvars
 
 \* every enumerated fault point produced a record whose fault fired at the planned system call
